@@ -135,6 +135,29 @@ Theorem ra_store_one_per_host anns p q :
   In p (ra_peers anns) -> In q (ra_peers anns) -> same_key p q -> p = q.
 Proof. unfold ra_peers. apply fold_add_one_per_key. intros ? ? []. Qed.
 
+(* floods (srv_api_flood.go): a flood of announces with distinct keys and, once the store is at rest, a
+   second flood in which some of the hosts re-announce with new ports. Whatever the order inside each
+   flood: every announce of the second flood is listed with its own port, an announce of the first
+   flood is still listed unless its host re-announced, ... *)
+Theorem ra_two_floods_complete l1 l2 p :
+  distinct_keys l1 -> distinct_keys l2 ->
+  (In p l2 \/ (In p l1 /\ forall x, In x l2 -> ~ same_key p x)) ->
+  In (mkNA (p_ip p) (p_port p)) (ra_store_get (p_ih p) (l1 ++ l2)).
+Proof.
+  intros D1 D2 H. apply in_store_get. exists p. split; [|split; reflexivity].
+  unfold ra_peers. rewrite fold_left_app. apply (fold_add_char l2 _ p D2).
+  destruct H as [H|[H Hn]]; [left; exact H | right; split; [|exact Hn]].
+  apply (fold_add_char l1 [] p D1). left. exact H.
+Qed.
+
+(* ... and the endpoint a re-announce replaced is gone (an older port never wins) *)
+Theorem ra_reannounce_replaces l1 l2 p q :
+  distinct_keys l2 -> In q l2 -> same_key p q -> p <> q -> ~ In p (ra_peers (l1 ++ l2)).
+Proof.
+  intros D2 Hq Hk Hne Hin. apply Hne. apply (ra_store_one_per_host (l1 ++ l2) p q Hin); [|exact Hk].
+  unfold ra_peers. rewrite fold_left_app. apply (fold_add_char l2 _ q D2). left. exact Hq.
+Qed.
+
 (* ================================================================ Part 2: the routing table *)
 
 Lemma ra_ent_eqb_eq a b : ra_ent_eqb a b = true <-> a = b.
